@@ -1014,6 +1014,17 @@ func (d *verifC14Driver) cleanup() {
 	for _, w := range d.wp.workers {
 		inPool[w] = true
 	}
+	// runners the pool created itself (adopted by a probe: "crunch-run process detected") are closed as
+	// well, so that no kill loop outlives the case
+	for w := range inPool {
+		for _, m := range []map[string]*remoteRunner{w.running, w.starting} {
+			for _, rr := range m {
+				if _, mine := d.owner[rr]; !mine && !rr.isClosed() {
+					rr.Close()
+				}
+			}
+		}
+	}
 	for _, rr := range d.runners {
 		if !inPool[d.owner[rr]] {
 			// a worker dropped by Pool.sync closes its runners itself (go wkr.Close())
